@@ -181,6 +181,7 @@ func newL1World(idseed uint64, kinds []sim.Kind) (*l1World, error) {
 	sim.SeedIDs(idseed)
 	knownCUIDs = map[string]bool{}
 	patchesHappened = false
+	s38Excluded = 0
 	opts := l1Deploy
 	l1Deploy = cluster.Options{}
 	env, err := cluster.New(opts)
@@ -715,5 +716,16 @@ func genLocalCall(rt *rapid.T, kind sim.Kind, dt iface.Datatype, conflict bool) 
 	if kind == sim.Document {
 		view = sim.Normalize(dt.(orda.Document).GetValue())
 	}
-	return m.genCall(rt, 0, view)
+	c := m.genCall(rt, 0, view)
+	if isOpen("S38") && (kind == sim.Map || kind == sim.Document) && len(c.Path) == 0 && (c.Key == "_id" || c.Key == "_orda_ver_") {
+		// known finding S38: a top-level member with one of the two names the server writes into the
+		// user-visible document itself. Excluded by construction (the member is called "a" instead) and
+		// counted; TestC11KnownS38 re-demonstrates the finding.
+		c.Key = "a"
+		s38Excluded++
+	}
+	return c
 }
+
+// s38Excluded counts the calls renamed because of known finding S38 since the last newL1World.
+var s38Excluded int
